@@ -26,8 +26,19 @@ RECURSIVE Join(_)
 Join(cs) == IF cs = <<>> THEN "" ELSE Head(cs) \o Join(Tail(cs))
 Recase(s, mode) == Join([i \in 1..Len(s) |-> IF mode = "lower" \/ (mode = "mixed" /\ i % 2 = 0) THEN LowerOf(Chars(s)[i]) ELSE Chars(s)[i]])
 RefText(r, nu) == IF r.k = "var" THEN "$" \o r.name ELSE (IF nu THEN "%NU%" ELSE "") \o ToString(r.id)
-Styles == {"compact", "spaced", "comments", "sloppy"}
+Styles == {"compact", "spaced", "comments", "sloppy", "gaps"}
+\* "gaps": a comment or a line break in EVERY gap between two tokens of a command (after the command name, after the
+\* parenthesis, around every comma, before the closing parenthesis), CR LF line ends, data bytes separated by blanks,
+\* line breaks and dashes.  (A comment is removed together with its line end, so one after the command name leaves the
+\* blank in front of it - the only thing allowed between the name and the parenthesis.)
+SpreadHex(d) == Join([i \in 1..Len(d) |-> IF Chars(d)[i] # "-" THEN Chars(d)[i]
+                                          ELSE IF i % 2 = 1 THEN " \n\t" ELSE IF i % 3 = 0 THEN " - " ELSE "\r\n-"])
+GapText(c) ==
+  CASE c.c = "ADD" -> "ADD # to ( add;\n(\r\n\t" \o RefText(c.v, TRUE) \o " # which )\n\n)"
+    [] c.c = "BIND" -> "BIND #, (\n  (\n" \o RefText(c.v1, FALSE) \o "\n,# from; to\n\t" \o RefText(c.v2, TRUE) \o "\r\n,\r\n" \o c.a \o " # label )\n)"
+    [] c.c = "PUT" -> "PUT #\n(" \o RefText(c.v, TRUE) \o "\n,\n" \o SpreadHex(c.d) \o "\n# end of data\n )"
 CmdText(c, st) ==
+  IF st = "gaps" THEN GapText(c) ELSE
   LET nu == st \in {"spaced", "sloppy"}
       sp == IF st = "spaced" THEN " " ELSE IF st = "comments" THEN "\t" ELSE ""
       open == IF st = "spaced" THEN " (" ELSE "("
@@ -40,6 +51,7 @@ Sep(st, i, n) ==
     [] st = "spaced" -> " ;\n  "
     [] st = "comments" -> IF i % 2 = 1 THEN ";\t# a comment; with ) and $x\n" ELSE ";\n# a whole line; ADD(7)\n\n"
     [] st = "sloppy" -> IF i = n THEN "" ELSE ";;\n;"              \* empty commands, no final semicolon
+    [] st = "gaps" -> IF i % 2 = 1 THEN "\r\n;\r\n" ELSE " # before the semicolon\n;"
 RECURSIVE RenderFrom(_, _, _)
 RenderFrom(prog, st, i) == IF i > Len(prog) THEN "" ELSE CmdText(prog[i], st) \o Sep(st, i, Len(prog)) \o RenderFrom(prog, st, i + 1)
 Render(prog, st) == (IF st = "comments" THEN "# leading comment\n" ELSE IF st = "sloppy" THEN " ;\n" ELSE "") \o RenderFrom(prog, st, 1)
